@@ -71,6 +71,7 @@ Proof. exact width_cut_spec. Qed.
 Print Assumptions C10_width_cut.
 
 Theorem C10_no_width_warning_all_classified : forall (Q : Type) (sa sl : Q -> Z) codes width (e : exploration Q),
+  (forall q, sl q <> S_SHUTDOWN) ->
   r_warn_width (run_test Q sa sl codes width e) = false ->
   r_exit (run_test Q sa sl codes width e) <> EX_EXCEPTION ->
   forall l, In l (ex_leaves e) -> is_panic_of (l_err Q l) (l_data l) codes <> TRaise.
@@ -91,6 +92,7 @@ Print Assumptions C10_invariant_flags.
    EVERY such path was an assertion-failure candidate (answered by the assertion solver) or was refuted by
    the solver -- for every list of reported paths.  (is_stuck = CallContext.is_stuck, tied at L1/L3.) *)
 Theorem C10_pass_no_stuck : forall (Q : Type) (sa sl : Q -> Z) codes width (e : exploration Q),
+  (forall q, sl q <> S_SHUTDOWN) ->
   r_exit (run_test Q sa sl codes width e) = EX_PASS ->
   r_warn_width (run_test Q sa sl codes width e) = false ->
   forall l, In l (ex_leaves e) ->
@@ -100,16 +102,28 @@ Theorem C10_pass_no_stuck : forall (Q : Type) (sa sl : Q -> Z) codes width (e : 
 Proof. exact pass_no_stuck. Qed.
 Print Assumptions C10_pass_no_stuck.
 
-(* GENUINE DEFECT (C10-setup-stuck-subcall-taken-as-success): setup() has no such guarantee.  Its success test
-   (regenerated: setup_path_ok has_error is_stuck = negb has_error) ignores is_stuck, so a setUp path stopped by
-   an internal error inside a sub-call (no error at the top level, output data None) is selected as THE
-   post-setUp state when it is the only error-free path; the tests then run from a half-executed setUp.
-   The statement `setup_select paths = SetupOk p -> sp_stuck p = false` is false of the faithful model: *)
-Theorem C10_setup_stuck_path_selected_refuted :
-  exists (paths : list (spath unit)) p,
-    setup_select unit (fun _ => S_SAT) paths = SetupOk p /\ sp_stuck p = true.
-Proof. exact setup_select_stuck_path_refuted. Qed.
-Print Assumptions C10_setup_stuck_path_selected_refuted.
+(* setup(): the success test regenerated from the source (setup_path_ok has_error is_stuck) accepts a path of setUp
+   only if it has no error AND is not stuck; so the post-setUp state every test starts from is never a path that
+   halmos could not continue (e.g. stopped by an internal error inside a sub-call: no error at the top level,
+   output data None), for every list of explored paths and every solver ... *)
+Theorem C10_setup_selected_path_not_stuck :
+  forall (Q : Type) (solve_low : Q -> Z) (paths : list (spath Q)) p,
+    setup_select Q solve_low paths = SetupOk p -> sp_error p = false /\ sp_stuck p = false.
+Proof. exact setup_selected_not_stuck. Qed.
+Print Assumptions C10_setup_selected_path_not_stuck.
+
+(* ... and a path that is dropped without having an error of its own is reported by an unconditional
+   INTERNAL_ERROR warning (regenerated: which arm of setup()'s chain a path takes and whether that arm warns) *)
+Theorem C10_setup_stuck_path_reported : forall e st,
+  setup_path_ok e st = false -> e = false -> setup_reports e st = true.
+Proof. exact setup_dropped_stuck_reported. Qed.
+Print Assumptions C10_setup_stuck_path_reported.
+
+(* confirming a stuck path: a solver call that fails is the `err` answer (counted as stuck), it does not escape
+   run_test; an interruption by the early exit (S_SHUTDOWN, excluded above by hypothesis) ends the path loop *)
+Theorem C10_stuck_solve_failure_counted : stuck_failure_counts = true /\ stuck_counts S_ERR = true.
+Proof. exact stuck_solve_failure_counted. Qed.
+Print Assumptions C10_stuck_solve_failure_counted.
 
 (* --depth: the guard regenerated from SEVM.run *)
 Theorem C10_depth_cut_guard : forall max_depth step_id,
@@ -118,25 +132,16 @@ Proof. exact depth_cut_spec. Qed.
 Print Assumptions C10_depth_cut_guard.
 
 (* --depth: the warning goes through the process-wide de-duplicating logger (key = message text).  For every
-   sequence of test executions whose signatures are pairwise distinct (the tests of one contract, overloads
-   included), every limit, every number of abandoned states per test and every initial filter state that has
-   not seen their texts: a test's run prints the warning exactly when one of its states was abandoned. *)
+   sequence of test executions of one halmos process whose (contract, signature) pairs are pairwise distinct
+   (overloads in one contract, the same signature in several contracts), every limit, every number of abandoned
+   states per test and every initial filter state that has not seen their texts: a test's run prints the warning
+   exactly when one of its states was abandoned. *)
 Theorem C10_depth_cut_reported : forall d runs records,
-  NoDup (map (fun t => fi_sig (tr_fun t)) runs) ->
+  NoDup (map (fun t => (fi_contract (tr_fun t), fi_sig (tr_fun t))) runs) ->
   (forall t, In t runs -> ~ In (depth_msg (tr_fun t) d) records) ->
   session d runs records = map (fun t => negb (Nat.eqb (tr_cuts t) 0)) runs.
 Proof. exact depth_cut_reported. Qed.
 Print Assumptions C10_depth_cut_reported.
-
-(* GENUINE DEFECT (C10-depth-warning-dedup-across-contracts): the text carries no contract name and the filter
-   lives as long as the process, so with `distinct (contract, signature)` the statement is FALSE: the same test
-   signature in a second contract of the run loses its --depth warning (clean [PASS], observed at L3). *)
-Theorem C10_depth_cut_reported_across_contracts_refuted :
-  exists d runs,
-    NoDup (map (fun t => (fi_contract (tr_fun t), fi_sig (tr_fun t))) runs) /\
-    session d runs [] <> map (fun t => negb (Nat.eqb (tr_cuts t) 0)) runs.
-Proof. exact depth_cut_reported_across_contracts_refuted. Qed.
-Print Assumptions C10_depth_cut_reported_across_contracts_refuted.
 
 Example C10_nonvacuous :
   (* symbolic condition at the bound: the true side is cut and logged; one below the bound it is followed *)
@@ -150,6 +155,11 @@ Example C10_nonvacuous :
   loop_bound_warned (mkInvRun false [false; false] false) = false /\
   (* --depth: two overloads and another name in one contract, all cut: all warned; an uncut test is silent *)
   session 200 [mkTestRun (mkFunInfo 1 5 7 9) 2; mkTestRun (mkFunInfo 1 5 8 10) 1; mkTestRun (mkFunInfo 1 6 11 12) 0] [] = [true; true; false] /\
+  (* the same signature in a second contract keeps its own warning; a second run of the very same test is de-duplicated *)
+  session 200 [mkTestRun (mkFunInfo 1 5 7 9) 1; mkTestRun (mkFunInfo 2 5 7 9) 1; mkTestRun (mkFunInfo 1 5 7 9) 1] [] = [true; true; false] /\
+  (* setUp: the only path is stuck inside a sub-call: no state is selected, and the path is reported *)
+  setup_select unit (fun _ => S_SAT) [mkSpath false true tt] = SetupNoPath /\ setup_reports false true = true /\
+  setup_select unit (fun _ => S_SAT) [mkSpath true false tt; mkSpath false false tt] = SetupOk (mkSpath false false tt) /\
   depth_cut 200 201 = true /\ depth_cut 200 200 = false /\ depth_cut 0 1000000 = false /\
   (* a path stopped by an internal error inside a sub-call (data None, no error at the root) makes the test STUCK *)
   r_exit (run_test bool (fun _ => S_SAT) (fun _ => S_SAT) [1] 0
